@@ -630,7 +630,7 @@ def run(tier):
     q3 = wd / "Lat_q3.cfg"
     q3.write_text((c.SPEC / "Lat_small3.cfg").read_text().replace("Chains43", "Chains3x2").replace("MaxReject = 3", "MaxReject = 3"))
     jobs = [("MC_Lattice", "Lat_small.cfg", {"workers": 4}),
-            ("MC_Lattice", "Lat_unbounded.cfg", {"workers": 2}),
+            ("MC_Lattice", "Lat_unbounded.cfg" if tier == "quick" else "Lat_unbounded3.cfg", {"workers": 2 if tier == "quick" else 6, "timeout": 3000}),
             ("MC_Lattice", q3 if tier == "quick" else "Lat_small3.cfg", {"workers": 6, "timeout": 3000}),
             ("MC_Lattice", "Lat_dev_nowrap.cfg", {"check": False, "workers": 1}),
             ("MC_Lattice", "Lat_dev_nooverlap.cfg", {"check": False, "workers": 1}),
@@ -640,7 +640,7 @@ def run(tier):
     ck.model_must_hold(small, "StepOne/InBox/NoOverlap/RootOnGrid/Contiguous/Final (L=2)")
     ck.model_must_hold(unb, "the same invariants on the COMPLETE reachable state graph with no bound on rejected draws / starts (MaxReject <- Unlimited: `rejects` frozen, "
                             "all other variables range over finite sets, so every rejection schedule of any length is a path of this graph; L=2, ring + chain)")
-    ck.extra["unbounded_rejections"] = {"cfg": "Lat_unbounded.cfg", "distinct_states": unb.distinct}
+    ck.extra["unbounded_rejections"] = {"cfg": "Lat_unbounded.cfg" if tier == "quick" else "Lat_unbounded3.cfg", "distinct_states": unb.distinct}
     ck.model_must_hold(small3, "StepOne/InBox/NoOverlap/RootOnGrid/Contiguous/Final (L=3)")
     ck.model_must_refute(d1, "InBox", "new position not wrapped into the box")
     ck.model_must_refute(d2, "NoOverlap", "overlap test bypassed")
